@@ -43,6 +43,8 @@ a_kinds! {
     DiscCreate, DiscRestart, DiscDrain, DiscDrop, FindObject, WaitForObject,
     ScopeCreate, ScopeEnd, ScopeDrop, LifetimeBind, LifetimeCheck, LifetimeDrop,
     HandleClone, HandleDrop, Yield, Shutdown,
+    // Blocking consumers (exercise wake-ups of event streams).
+    EventWaiter, ListenerWaiter, DiscWaiter,
 }
 
 #[derive(Debug, Clone, Copy, PartialEq, Eq)]
@@ -504,7 +506,15 @@ pub async fn producer_task(ctx: Ctx, mut sender: Sender, tag: u64, n: u32, close
                 ctx.probe("receiver-closed-polled-while-open");
             }
         }
-        let r = blocked(&info, "Sender::send_item", must, sender.send_item(item)).await;
+        let r = if (close_mode >> 7) % 2 == 1 {
+            // The non-async half of the API: wait for credit, then start the send.
+            match blocked(&info, "Sender::send_ready", must, sender.send_ready()).await {
+                Ok(()) => sender.start_send_item(item),
+                Err(e) => Err(e),
+            }
+        } else {
+            blocked(&info, "Sender::send_item", must, sender.send_item(item)).await
+        };
         match r {
             Ok(()) => {
                 ctx.log.borrow_mut().produced.get_mut(&tag).unwrap().0.push(item);
